@@ -740,6 +740,11 @@ func isNilCompare(u ssa.Instruction, v ssa.Value) bool {
 func rulePanicSites(c *Ctx, scope []*ssa.Function) {
 	rid := "R06.c"
 	c.rule(rid, "A8: every panic-capable instruction in the parser scope — index, slice, make, unchecked type assertion, integer division, explicit panic — is discharged: index/slice bounds by the inequality prover (branch facts, phi edges, caller facts, len of make), constant cases by constant reasoning; wire-sized make by R06.a")
+	rulePanicSitesIn(c, rid, scope, "panic-capable-instructions", 8)
+}
+
+// rulePanicSitesIn: the same obligations over another scope.
+func rulePanicSitesIn(c *Ctx, rid string, scope []*ssa.Function, counter string, floor int) {
 	sset := scopeSet(scope)
 	n := 0
 	for _, f := range scope {
@@ -821,13 +826,23 @@ func rulePanicSites(c *Ctx, scope []*ssa.Function) {
 				nme := calleeName(x.Common())
 				if strings.Contains(nme, ".Must") {
 					n++
-					c.bad(rid, mk("must"), c.P.instrPos(x), "Must* call in the parser: "+nme)
+					allConst := len(x.Common().Args) > 0
+					for _, a := range x.Common().Args {
+						if _, isC := a.(*ssa.Const); !isC {
+							allConst = false
+						}
+					}
+					if allConst {
+						c.ok(rid, mk("must"), c.P.instrPos(x), "Must* call on constants only")
+					} else {
+						c.bad(rid, mk("must"), c.P.instrPos(x), "Must* call on a value that is not a constant: "+nme)
+					}
 				}
 			}
 		})
 	}
-	c.count("panic-capable-instructions", n)
-	c.floor("panic-capable-instructions", 8)
+	c.count(counter, n)
+	c.floor(counter, floor)
 }
 
 func isVarargsArray(v ssa.Value) bool {
